@@ -74,6 +74,7 @@ theorem applyAction_same (w : W) (a : Action) : Same w (applyAction w a).1 := by
   | conn c => exact Same.refl w
   | send c t => simp only [applyAction]; split <;> exact Same.refl w
   | close c => simp only [applyAction]; split <;> exact ⟨rfl, rfl, rfl, rfl, rfl, rfl, rfl, rfl, rfl, by trx⟩
+  | reset c => simp only [applyAction]; split <;> exact ⟨rfl, rfl, rfl, rfl, rfl, rfl, rfl, rfl, rfl, by trx⟩
   | cin t => simp only [applyAction]; split <;> exact Same.refl w
   | idle => exact Same.refl w
 
@@ -84,6 +85,7 @@ theorem applyAction_console (w : W) (a : Action) (t : String) (h : IoEv.console 
   | conn c => simp [applyAction] at h
   | send c t' => simp only [applyAction] at h; split at h <;> simp at h
   | close c => simp only [applyAction] at h; split at h <;> simp at h
+  | reset c => simp only [applyAction] at h; split at h <;> simp at h
   | cin t' =>
     simp only [applyAction] at h
     split at h
@@ -142,6 +144,7 @@ theorem applyAction_trace (w : W) (a : Action) : (applyAction w a).1.trace = w.t
   | conn c => rfl
   | send c t => simp only [applyAction]; split <;> rfl
   | close c => simp only [applyAction]; split <;> rfl
+  | reset c => simp only [applyAction]; split <;> rfl
   | cin t => simp only [applyAction]; split <;> rfl
   | idle => rfl
 
@@ -174,20 +177,31 @@ theorem cycleHead_good (n : Nat) (acts : List Action) (w : W) (g : Good w) :
     exact this
   · exact (s3 g2.inv).2.mode
 
+theorem clearBacklog_same (w : W) : Same w (clearBacklog w) := ⟨rfl, rfl, rfl, rfl, rfl, rfl, rfl, rfl, rfl, by trx⟩
+theorem setBacklog_same (w : W) (l : List IoEv) : Same w (setBacklog w l) :=
+  ⟨rfl, rfl, rfl, rfl, rfl, rfl, rfl, rfl, rfl, by trx⟩
+
+theorem pendingEvents_noConsole (w : W) (t : String) : IoEv.console t ∉ pendingEvents w := by
+  unfold pendingEvents
+  intro h
+  have := (List.mem_filter.mp h).2
+  simp [isConnEv] at this
+
 theorem cycleBody_good (S : Scripts) (rh : HookFn) (hrh : HookOK rh) (k : Nat) (w : W) (evs : List IoEv)
     (g : Good w) (hc : ∀ t, IoEv.console t ∈ evs → w.mode = .console) :
     GT w (cycleBody S rh k w evs).1 := by
   unfold cycleBody
-  have g1 : GT w (if evs.isEmpty = true then (w, false) else processIo S rh w evs).1 := by
+  have gc : GT w (clearBacklog w) := GT.of_cstep g (clearBacklog_same w).step.toC
+  have g1 : GT w (if evs.isEmpty = true then (clearBacklog w, false) else processIo S rh (clearBacklog w) evs).1 := by
     split
-    · exact GT.refl g
-    · exact GT.of_cstep g (processIo_cstep S rh hrh w evs (fun t ht => g.console (hc t ht)))
+    · exact gc
+    · exact gc.then (processIo_cstep S rh hrh (clearBacklog w) evs (fun t ht => gc.1.console (hc t ht)))
   revert g1
-  generalize (if evs.isEmpty = true then (w, false) else processIo S rh w evs) = r1
+  generalize (if evs.isEmpty = true then (clearBacklog w, false) else processIo S rh (clearBacklog w) evs) = r1
   intro g1
   simp only []
   split
-  · exact g1.recover
+  · exact (g1.then (setBacklog_same r1.1 _).step.toC).recover
   · have g2 : GT w (commandLoop rh k r1.1).1 := g1.then (commandLoop_step rh hrh k r1.1).toC
     split
     · exact g2.recover
@@ -258,7 +272,11 @@ theorem cycle_good (S : Scripts) (rh : HookFn) (hrh : HookOK rh) (n : Nat) (acts
   · exact (GT.refl g).toC
   · obtain ⟨g1, ht, hc, hm⟩ := cycleHead_good n acts w g
     have hb := cycleBody_good S rh hrh ((slots w).filter Option.isSome).length _ _ g1
-      (fun t ht' => by rw [hm]; exact hc t ht')
+      (fun t ht' => by
+        rw [hm]
+        rcases List.mem_append.mp ht' with h | h
+        · exact absurd h (pendingEvents_noConsole w t)
+        · exact hc t h)
     have h1 : GTC w (cycleHead n acts w).1 [n] :=
       ⟨g1, [Ev.cycle n], ht, ⟨by simp [isCrash], rfl, by simp⟩, rfl⟩
     have := h1.trans hb.toC
